@@ -172,6 +172,7 @@ impl TokenSink for HSink {
     }
 }
 
+mod monitor;
 mod xml;
 
 /// serializer events (one per line: `ev start|end|text ...`) through the real XmlSerializer, then the output through the
@@ -244,7 +245,7 @@ fn htmldoc(inp: &str) {
     use html5ever::driver::{parse_document, parse_fragment, ParseOpts};
     use html5ever::tree_builder::{QuirksMode, TreeBuilderOpts};
     use html5ever::{Attribute, LocalName, Namespace, QualName};
-    use markup5ever_rcdom::{Handle, NodeData, RcDom};
+    use markup5ever_rcdom::{Handle, NodeData};
     use tendril::TendrilSink;
     fn s(h: &str) -> String {
         String::from_utf8(unhex(h)).unwrap()
@@ -277,22 +278,37 @@ fn htmldoc(inp: &str) {
         }
     }
     let opts = ParseOpts { tree_builder: tbo, ..Default::default() };
-    let dom: RcDom = match context {
-        Some(c) => {
-            let mut p = parse_fragment(RcDom::default(), opts, c, cattrs, form);
-            for c in &chunks {
-                p.process(StrTendril::from_slice(c));
-            }
-            p.finish()
-        },
-        None => {
-            let mut p = parse_document(RcDom::default(), opts);
-            for c in &chunks {
-                p.process(StrTendril::from_slice(c));
-            }
-            p.finish()
-        },
+    // the parse runs over the monitoring sink (contract + trace bookkeeping); the tree is RcDom's
+    let p = match context {
+        Some(c) => parse_fragment(monitor::Mon::new(), opts, c, cattrs, form),
+        None => parse_document(monitor::Mon::new(), opts),
     };
+    let pause = |p: &html5ever::driver::Parser<monitor::Mon>, kind: &str| {
+        let col = monitor::Collect(std::cell::RefCell::new(vec![]));
+        p.tokenizer.sink.trace_handles(&col);
+        p.tokenizer.sink.sink.pause(kind, &col.0.borrow());
+    };
+    for c in &chunks {
+        // (Parser::process resumes at once after a script; the pause that matters for C18 is observable at the chunk
+        // boundary, and per script through the single-stepping below)
+        p.input_buffer.push_back(StrTendril::from_slice(c));
+        loop {
+            match p.tokenizer.feed(&p.input_buffer) {
+                TokenizerResult::Done => break,
+                TokenizerResult::Script(_) => pause(&p, "Script result"),
+                TokenizerResult::EncodingIndicator(_) => pause(&p, "EncodingIndicator result"),
+            }
+        }
+        pause(&p, "chunk boundary");
+    }
+    let mon = p.finish();
+    for b in mon.bad.borrow().iter() {
+        println!("contract {b}");
+    }
+    for b in mon.trace_bad.borrow().iter() {
+        println!("trace {b}");
+    }
+    let dom = &mon.dom;
     fn walk(h: &Handle, d: usize) {
         match &h.data {
             NodeData::Document => println!("{d} document"),
